@@ -2,7 +2,8 @@ import Geo.Props.C19
 #print axioms Geo.T19_index_table_1
 #print axioms Geo.T19_index_table_2
 #print axioms Geo.T19_index_table_3
-#print axioms Geo.T19_index_counterexamples
+#print axioms Geo.T19_index_table_4
+#print axioms Geo.T19_index_former_counterexamples
 #print axioms Geo.T19_types_of_mapping
 #print axioms Geo.T19_transpose_types
 #print axioms Geo.T19_cycle_table
